@@ -43,7 +43,6 @@ def fresh_ops(mesh, fixed, fix_psi, A):
     from tdgl.finite_volume.operators import MeshOperators
     from tdgl.solver.options import SparseSolver
     ops = MeshOperators(mesh, SparseSolver.SUPERLU, fixed_sites=fixed, fix_psi=fix_psi)
-    ops.build_operators()
     ops.set_link_exponents(A)
     return ops
 
